@@ -216,52 +216,70 @@ def s_wrap():
         w("float", st.floats(allow_nan=False, allow_infinity=False, width=32)))
 
 
-def s_scalar(ver, hashable=False):
-    alts = [s_int(), s_float(), s_text(), s_bool(), s_uuid(), s_decimal(), s_date(), s_time(), s_time(),
-            s_instant(), s_instant(), s_timedelta(), s_timedelta(), s_timedelta(), s_inet(),
-            s_point(), s_linestring(), s_polygon()]
+def s_timedelta_tame():
+    """the classes DurationTypeIO handles: non-negative, below 99000 days, seconds field 0 or >= 1e-4"""
+    def mk(d, s, us):
+        if s % 60 == 0 and 0 < us < 100:
+            us += 100
+        return _tag("timedelta", d=d, s=s, us=us)
+    return st.builds(mk, st.one_of(st.sampled_from([0, 0, 1, 365, 98999]), st.integers(0, 3650)),
+                     st.one_of(st.sampled_from([0, 1, 59, 60, 3600, 86399]), st.integers(0, 86399)), s_us())
+
+
+def s_scalar(ver, hashable=False, inner=False):
+    """inner=True: element of a container -- the scalar classes with known findings are made rare there so that the
+    containers themselves are exercised (a failing leaf suspends the verdict on its container)"""
+    td = weighted((6, s_timedelta_tame()), (1, s_timedelta())) if inner else weighted((1, s_timedelta_tame()), (3, s_timedelta()))
+    alts = [(2, s_int()), (2, s_float()), (2, s_text()), (1, s_bool()), (1, s_uuid()), (2, s_decimal()), (2, s_date()),
+            (2, s_time()), (4, s_instant()), (3 if inner else 6, td), (2, s_inet()),
+            (1, s_point()), (1, s_linestring()), (2, s_polygon())]
     if hashable:
         # bytes only (bytearray is unhashable as an *input*); kept rare: see the blob-in-hashed-position finding
-        alts.append(s_blob(forms=("bytes",)))
+        alts.append((1, s_blob(forms=("bytes",))))
     else:
-        alts += [s_blob(), s_blob()]
+        alts.append((3, s_blob()))
     if ver == 3 and not hashable:
-        alts += [s_duration(), s_duration(), s_wrap()]
-    return st.one_of(*alts)
+        alts += [(3, s_duration()), (3, s_wrap())]
+    return weighted(*alts)
 
 
 def _safe_key(k):
     return k + "_" if k in ("@type", "@value") else k
 
 
+def weighted(*pairs):
+    """explicitly weighted choice (one_of flattens nested one_ofs, which would drown the containers)"""
+    idx = [i for i, (w, _) in enumerate(pairs) for _ in range(w)]
+    return st.sampled_from(idx).flatmap(lambda i: pairs[i][1])
+
+
 def s_value_v2(depth):
     if depth == 0:
-        return s_scalar(2)
+        return s_scalar(2, inner=True)
     sub = s_value_v2(depth - 1)
     d = st.lists(st.tuples(st.text(max_size=6).map(_safe_key), sub).map(list), max_size=4) \
         .map(lambda pairs: _tag("dict", v=pairs))
-    return st.one_of(s_scalar(2), s_scalar(2), d)
+    return weighted((1, s_scalar(2, inner=True)), (1, d))
 
 
 def s_hashable_v3(depth):
     if depth == 0:
-        return s_scalar(3, hashable=True)
+        return s_scalar(3, hashable=True, inner=True)
     sub = s_hashable_v3(depth - 1)
-    return st.one_of(s_scalar(3, hashable=True), s_scalar(3, hashable=True), s_scalar(3, hashable=True),
-                     st.lists(sub, max_size=3).map(lambda v: _tag("tuple", v=v)))
+    return weighted((5, s_scalar(3, hashable=True, inner=True)), (1, st.lists(sub, max_size=3).map(lambda v: _tag("tuple", v=v))))
 
 
 def s_value_v3(depth):
     if depth == 0:
-        return s_scalar(3)
+        return s_scalar(3, inner=True)
     sub = s_value_v3(depth - 1)
     hsub = s_hashable_v3(depth - 1)
-    return st.one_of(
-        s_scalar(3), s_scalar(3),
-        st.lists(sub, max_size=4).map(lambda v: _tag("list", v=v)),
-        st.lists(hsub, max_size=4).map(lambda v: _tag("set", v=v)),
-        st.lists(st.tuples(hsub, sub).map(list), max_size=4).map(lambda v: _tag("map", v=v)),
-        st.lists(sub, max_size=4).map(lambda v: _tag("tuple", v=v)))
+    return weighted(
+        (5, s_scalar(3, inner=True)),
+        (2, st.lists(sub, max_size=4).map(lambda v: _tag("list", v=v))),
+        (2, st.lists(hsub, max_size=4).map(lambda v: _tag("set", v=v))),
+        (2, st.lists(st.tuples(hsub, sub).map(list), max_size=4).map(lambda v: _tag("map", v=v))),
+        (2, st.lists(sub, max_size=4).map(lambda v: _tag("tuple", v=v))))
 
 
 def s_case_v1():
@@ -269,11 +287,11 @@ def s_case_v1():
 
 
 def s_case_v2():
-    return st.one_of(s_scalar(2), s_value_v2(3)).map(lambda v: {"ver": 2, "value": v})
+    return weighted((2, s_scalar(2)), (1, s_value_v2(3))).map(lambda v: {"ver": 2, "value": v})
 
 
 def s_case_v3():
-    return st.one_of(s_scalar(3), s_value_v3(3), s_value_v3(3)).map(lambda v: {"ver": 3, "value": v})
+    return weighted((1, s_scalar(3)), (2, s_value_v3(3))).map(lambda v: {"ver": 3, "value": v})
 
 
 # ---------------------------------------------------------------------------------------------
@@ -667,6 +685,7 @@ def interpret(case, ctx):
         hazard = _hashed_blob(root)
         if hazard:
             ctx.label("container:blob-in-hashed-position")
+        ctx.label("container:judged" if all_ok else "container:suspended-by-failing-leaf")
         if all_ok:
             key = ["C40.container", "blob-in-hashed-position"] if hazard else ["C40.container", "v%d" % ver, root.kind]
             for name, thunk in roundtrips(ver, root.obj, root.kind, False):
